@@ -31,7 +31,7 @@ PROPS = {
     'C08': dict(vamh=dict(profiles=VAMH_ALL), eng={'devh': ['basic', 'hyst', 'persist', 'mapfault', 'malformed']}),
     'C09': dict(muh={'tlsf': ['gran', 'basic'], 'linear': ['gran', 'upper', 'ring']}, vamh=dict(profiles=['gran', 'defrag'])),
     'C10': dict(vamh=dict(profiles=['basic'], faults=['basic', 'map', 'pools', 'limits', 'defrag']), eng={'devh': ['mapfault', 'allocfault', 'limit']}),
-    'C11': dict(vamh=dict(profiles=['limits', 'pools', 'basic']), eng={'devh': ['limit', 'count', 'allocfault']}),
+    'C11': dict(vamh=dict(profiles=['limits', 'pools', 'basic'], race=True), eng={'devh': ['limit', 'count', 'allocfault']}),
     'C12': dict(vamh=dict(profiles=['basic'], race=True)),
     'C13': dict(muh={'tlsf': MUH_TLSF, 'linear': MUH_LIN}, vamh=dict(profiles=VAMH_ALL)),
     'C14': dict(vamh=dict(profiles=['map', 'defrag', 'basic', 'pools']), eng={'devh': ['basic', 'hyst', 'persist', 'mapfault']}),
@@ -543,7 +543,8 @@ class Check:
                             self.violations.append((rp, line, True))
             if l.strip():
                 self.cov['corpus_entries'] += 1
-        n, ops = (150, 80) if self.quick else (6000, 140)
+        npf = max(1, len(vs['profiles']))
+        n, ops = (200 * npf, 80) if self.quick else (3000 * npf, 140)    # histories are split over the profiles
         outd = self.rundir + '/vamh'
         sj = self.rundir + '/vamh.json'
         rc, out, err = sh([B + '/vamh', 'gen', '-seed', str(self.seed % (1 << 62)), '-n', str(n), '-ops', str(ops), '-profile', ','.join(vs['profiles']),
@@ -626,6 +627,13 @@ class Check:
                 if rj.get('own_bytes_corrupted'): probs.append('own bytes corrupted: %s' % rj['own_bytes_corrupted'])
                 if rj.get('hang'): probs.append('hang (deadlock?)')
                 if rj.get('final_state_problems'): probs.append('final state: %s' % rj['final_state_problems'])
+                self.cov['race']['limit_rounds'] = rj.get('limit_rounds')
+                if rj.get('limit_overruns'):
+                    lo = 'heap limit overrun under concurrency (no sequential order allows it): %s' % rj['limit_overruns'][0]
+                    if self.pid == 'C11':
+                        rp = self.write_note('race-limit', '\n'.join(rj['limit_overruns']))
+                        self.violations.append((rp, lo, True))
+                    probs.insert(0, lo)
             except Exception as e:
                 probs = ['race run produced no summary: %s' % e]
             if rc == 66 or 'DATA RACE' in err:
